@@ -36,16 +36,14 @@ Definition obs_eqb (a b : obs) : bool :=
   outcome_eqb oa ob && list_eqb kp_eqb pa pb && Bool.eqb ea eb && list_eqb (list_eqb val_eqb) la lb.
 Definition obsl_eqb := list_eqb obs_eqb.
 
-(* one finding is open: class 13, reverse tests HasProperty before it Gets (visible only through getters with
-   side effects); reverse is the only place where the dialects differ, so any model/spec difference is class 13;
-   every other departure from ES5 is a violation *)
+(* no finding of C08 is open: every departure from ES5 is a violation (class 0) *)
 Definition verdict (c : case) : Z * Z :=
   match c with
   | CHist init ops observed =>
       let s := run es5 init ops in
       let m := run otto init ops in
       if declines s || declines m then declined
-      else judge obsl_eqb observed m s (if obsl_eqb m s then 0 else 13)
+      else judge obsl_eqb observed m s 0
   | CSort elems cmp observed =>
       match sort_model elems cmp with
       | None => declined
